@@ -121,4 +121,28 @@ def streamingBuild (isHead : Bool) (ae : Option Bytes) (chunkSize level : Nat) :
       .ok { vary := true, contentEncodingGzip := gz,
             writer := if isHead then .none else if gz then .gzip else .raw }
 
+/-- A builder call between `streaming_body(req)` and `build()`. -/
+inductive BCall where
+  | chunkSize (n : Nat)     -- `with_chunk_size(n)`
+  | gzipLevel (n : Nat)     -- `with_gzip_level(n)`
+  deriving Repr, DecidableEq
+
+/-- The builder's settings; `streaming_body` starts from chunk size 4096 and gzip level 6 (the
+negotiation result and the method are fixed at `streaming_body(req)` and not settable). -/
+structure SBuilder where
+  chunkSize : Nat := 4096
+  gzipLevel : Nat := 6
+  deriving Repr, DecidableEq
+
+/-- `StreamingBodyBuilder { chunk_size, ..self }` / `StreamingBodyBuilder { gzip_level, ..self }` -/
+def SBuilder.call (b : SBuilder) : BCall → SBuilder
+  | .chunkSize n => { b with chunkSize := n }
+  | .gzipLevel n => { b with gzipLevel := n }
+
+/-- `streaming_body(req)`, any sequence of builder calls, `build()`. -/
+def streamingBuildCalls (isHead : Bool) (ae : Option Bytes) (calls : List BCall) :
+    R StreamingResp :=
+  let b := calls.foldl SBuilder.call {}
+  streamingBuild isHead ae b.chunkSize b.gzipLevel
+
 end HS
